@@ -5,6 +5,7 @@ from cv import flow, fmtshape, rules
 from cv.rules import events_of
 
 TITLE = "Exclusions mean the same thing at backup, list and restore time"
+TECHNIQUE = 'static analysis: provenance of matcher arguments on both sides, sibling agreement of the two glob builders incl. decoded format templates, dominance (prune before queue)'
 EXPLANATION = (
     "Equivalence of prune-while-walking and filter-each-entry for all patterns and trees is glob algebra and is not "
     "decided. Decided is that both sides ask the same question of the same matcher: (1) the walk calls "
